@@ -597,11 +597,11 @@ def hist_replay(expr, expected):
             "> /tmp/c18-replay.scm; chibi-scheme /tmp/c18-replay.scm   # answers are separated by ';'; expected answer of the last operation: %s" % (expr, expected))
 
 
-def check_histories(ctx, d, exe):
+def check_histories(ctx, d, exe, corpus_hist=()):
     rng = ctx.rng
     prelude = open(os.path.join(HERE, "..", "harness", "c18_hist.scm")).read()
     per = 40 if not ctx.thorough else 1500
-    items = []
+    items = list(corpus_hist)
     for fam in FAMILIES:
         for k in range(per):
             length = rng.choice([3, 8, 20, 50, 100, 200]) if k % 4 else 200
@@ -672,6 +672,22 @@ def check_histories(ctx, d, exe):
     ctx.sample(dict(kind="history", expr=exprs[1][:300], spec=spec[1][:300], impl=(impl[1] or "")[:300]))
 
 
+def check_corpus(ctx, d):
+    """minimised past disagreements (corpus/C18/cases.json): returns the corpus histories for check_histories"""
+    import json
+    path = os.path.join(HERE, "..", "corpus", "C18", "cases.json")
+    if not os.path.exists(path):
+        return []
+    c = json.load(open(path))
+    ex = c.get("exprs", [])
+    outs = scm.run_cases(d, [e["expr"] for e in ex], prelude_extra=SORT_PRELUDE)
+    for e, o in zip(ex, outs):
+        ctx.count(1, key=("corpus", e["expr"]), nontrivial=True)
+        if o != e["expected"]:
+            ctx.violation(e["sig"], input=e["expr"], expected=e["expected"], observed=o, replay=replay_text(SORT_PRELUDE, e["expr"]))
+    return [(h["family"], [(op[0], list(op[1:])) for op in h["prog"]]) for h in c.get("histories", [])]
+
+
 def run(ctx):
     ctx.cov["rule"] = ("sorts: (procedure x ordering x container x key pattern) cases; every length 0-40 for every procedure, every ordering at the "
                        "lengths of the hand-written 1/2/3-element cases and first merges, seeded lengths up to 2000; keys drawn with heavy "
@@ -683,9 +699,10 @@ def run(ctx):
     exe = ctx.extract("C18")
     if exe is None:
         return
+    corpus_hist = check_corpus(ctx, d)
     check_sorts(ctx, d, exe)
     check_merges(ctx, d, exe)
     check_predicates(ctx, d, exe)
-    check_histories(ctx, d, exe)
+    check_histories(ctx, d, exe, corpus_hist)
     ctx.assume("less/key procedures that raise, capture continuations or mutate the sequence are outside the model")
     ctx.assume("inconsistent orderings (NaN, non-transitive less) are outside the property's premise and are not generated")
